@@ -305,6 +305,105 @@ class Function:
             return None
         return cond, b["succ"][0], b["succ"][1]
 
+    # ---- finite-domain evaluation -----------------------------------------------------
+    def eval_expr(self, n, env):
+        """value of an integer expression over constants and the parameters named in env
+        ({param index: value}); None when anything else is involved"""
+        n = self.resolve_x(n) if n is not None else None
+        if n is None:
+            return None
+        k = n.get("k")
+        if k == "cast":
+            return self.eval_expr(n["e"], env)
+        if k == "ref":
+            if n.get("rk") == "p" and n.get("pi") in env:
+                return env[n["pi"]]
+            if n.get("rk") == "e" and "v" in n:
+                return n["v"]
+            return None
+        if "v" in n and k in ("int", "sizeof"):
+            return n["v"]
+        if k == "un":
+            v = self.eval_expr(n["e"], env)
+            if v is None:
+                return None
+            return {"!": int(not v), "-": -v, "~": ~v, "+": v}.get(n.get("op"))
+        if k == "bin":
+            op = n["op"]
+            a = self.eval_expr(n["lhs"], env)
+            if op == "&&":
+                if a is not None and not a:
+                    return 0
+                b = self.eval_expr(n["rhs"], env)
+                return None if a is None or b is None else int(bool(a) and bool(b))
+            if op == "||":
+                if a:
+                    return 1
+                b = self.eval_expr(n["rhs"], env)
+                return None if a is None or b is None else int(bool(a) or bool(b))
+            b = self.eval_expr(n["rhs"], env)
+            if a is None or b is None:
+                return n.get("v")
+            try:
+                return {"==": int(a == b), "!=": int(a != b), "<": int(a < b), "<=": int(a <= b), ">": int(a > b), ">=": int(a >= b),
+                        "+": a + b, "-": a - b, "*": a * b, "&": a & b, "|": a | b, "^": a ^ b, "<<": a << b, ">>": a >> b}.get(op)
+            except Exception:
+                return None
+        if k == "cond":
+            c = self.eval_expr(n.get("c"), env)
+            if c is None:
+                return None
+            return self.eval_expr(n.get("t") if c else n.get("f"), env)
+        if "v" in n:
+            return n["v"]
+        return None
+
+    def eval_pure(self, env, max_steps=400):
+        """return value of a side-effect-free function for the given parameter values, obtained by
+        walking the CFG and folding conditions (if / switch / && / || / ?:); None if a condition
+        or the returned expression depends on anything but parameters and constants"""
+        bid = self.entry
+        steps = 0
+        known = {}          # node id -> value (short-circuit operands evaluated in earlier blocks)
+        while bid is not None and steps < max_steps:
+            steps += 1
+            blk = self.blocks[bid]
+            for r in blk["el"]:
+                if r.get("k") == "ret":
+                    return self.eval_expr(r.get("e"), env)
+            succ = blk["succ"]
+            term = blk.get("term")
+            if term == "switch" or (blk.get("cond") is not None and len([x for x in succ if x is not None]) > 2):
+                node = self.node_by_id(blk["cond"])
+                v = self.eval_expr(node[2] if node else None, env)
+                if v is None:
+                    return None
+                nxt = dflt = None
+                for s2 in succ:
+                    if s2 is None:
+                        continue
+                    lab = self.blocks[s2].get("label") or {}
+                    if lab.get("k") == "case" and (lab.get("v") == v or ("v2" in lab and lab["v"] <= v <= lab["v2"])):
+                        nxt = s2
+                    elif lab.get("k") == "default":
+                        dflt = s2
+                if nxt is None and dflt is None:
+                    others = [s2 for s2 in succ if s2 is not None and not (self.blocks[s2].get("label") or {}).get("k") == "case"]
+                    dflt = others[0] if others else None
+                bid = nxt if nxt is not None else dflt
+                continue
+            live = [x for x in succ]
+            if blk.get("cond") is not None and len(live) == 2:
+                node = self.node_by_id(blk["cond"])
+                v = self.eval_expr(node[2] if node else None, env)
+                if v is None:
+                    return None
+                bid = live[0] if v else live[1]
+                continue
+            nxt = [x for x in succ if x is not None]
+            bid = nxt[0] if nxt else None
+        return None
+
     def branches(self):
         for bid in self.blocks:
             br = self.branch(bid)
